@@ -104,7 +104,7 @@ theorem getDouble_dec (q : Rat) : getDouble (.dec q) = .ok (.dbl (toD64 q)) := b
 macro "vp_simp" : tactic => `(tactic|
   simp [valuePair, valueOp, Atom.cls, Atom.isFloatCls, isBoolA, isIntDec, isStrLike3, isStr, isQN, isNumCls,
      Atom.isDur, numRank, castNum, pyOp, pyBinop, subclassFirst, dunder, Atom.pyNum, numCmp, liftPy, dCmp_eq_six, isEqNe, isUA,
-     sCmp, iCmp, bCmp, cmpBy_eq_six, Atom.isDT, Atom.isBin, Atom.dtVal, Atom.binVal, Atom.durVal, durInstanceOf,
+     sCmp, iCmp, bCmp, cmpBy_eq_six, Atom.isDT, Atom.isBin, Atom.dt, Atom.binVal, Atom.durVal, durInstanceOf,
      binOrdered, strLtS, strEqS, octLt, D.isNaN])
 
 macro "vpn_simp" : tactic => `(tactic|
@@ -156,6 +156,24 @@ theorem valuePair_numeric (m : Mode) (op : Op) (a b : Atom) (i j : Nat)
       · obtain ⟨hl, hg⟩ := numEq_not_lt hq
         simp [hl, hg]
 
+theorem DT.inst_eq_instant (d : DT) : d.inst = instant d := by
+  unfold DT.inst instant
+  cases d.tz <;> simp
+
+/-- `_compare` on two date/time payloads is the order of the instants (given calendar-consistent years) -/
+theorem dtCompare_eq_six (op : Op) (x y : DT) (h : dtFarOK x y = true) :
+    dtCompare op x y =
+      six (fun p q => decide (p < q)) (fun p q => decide (p = q)) op (instant x) (instant y) := by
+  rw [← DT.inst_eq_instant, ← DT.inst_eq_instant]
+  simp only [dtFarOK, Bool.and_eq_true, Bool.or_eq_true, Bool.not_eq_true', decide_eq_false_iff_not,
+    decide_eq_true_eq] at h
+  unfold dtCompare
+  split
+  · split
+    · cases op <;> simp [iCmp, cmpBy, six]
+    · cases op <;> simp [iCmp, cmpBy, six] <;> grind
+  · cases op <;> simp [iCmp, cmpBy, six]
+
 /-- ordering of two xs:yearMonthDuration values goes through `months2days` (calendar arithmetic, the
 subject of C11): excluded from the pairwise theorem, covered by the correspondence only -/
 def ymdOrd (op : Op) (a b : Atom) : Bool :=
@@ -188,7 +206,7 @@ exactly the incomparable type pairs. -/
 theorem valuePair_conforms (m : Mode) (op : Op) (a b : Atom) (hua : isUA a = false) (hub : isUA b = false)
     (h1 : trigTol true op a b = false) (h2 : trigPromotion true a b = false)
     (h4 : ∀ e, getDouble a ≠ .error e) (h5 : ∀ e, getDouble b ≠ .error e)
-    (h6 : ymdOrd op a b = false) :
+    (h6 : ymdOrd op a b = false) (h8 : dtConsistent a b = true) :
     valuePair m op a b = valueOp (binOrdered m) op a b := by
   cases hi : numRank a with
   | some i =>
@@ -198,6 +216,10 @@ theorem valuePair_conforms (m : Mode) (op : Op) (a b : Atom) (hua : isUA a = fal
       cases a <;> simp [numRank] at hi <;> cases b <;> simp [numRank] at hj <;> vp_simp
   | none =>
     cases a <;> simp [numRank] at hi <;> cases b <;> (try simp [isUA] at hua hub) <;> vp_simp
+    all_goals try (
+      simp [dtConsistent, Atom.isDT, Atom.dt] at h8
+      simp [dtCompare_eq_six _ _ _ h8]
+      done)
     all_goals
       cases op <;> simp_all [six, Op.swap, strLt, strLtS, strEqS, PyR.map, Op.isEqNe, Op.isOrd, isQN, isStr,
         isUA, ymdOrd, durCmp4_dtd, iCmp, cmpBy]
